@@ -88,7 +88,9 @@ class Model:
             self.frames_emitted.append((m._clsname, m.get("msg_type")))
             return None
 
-        it = Interp(self.prog, {"send_message": send}, self.const_env)
+        noop = lambda s_, a_, k_: None
+        # acknowledgement / notification side effects are outside the subscription algebra (decided by C19 / C07)
+        it = Interp(self.prog, {"send_message": send, "send_ack": noop, "send_client_info": noop, "send_to_loggers": noop, "send_failed_message": noop}, self.const_env)
         return it
 
     def deliver(self, mgr, module, frames):
